@@ -41,6 +41,7 @@ type Val struct {
 	Dyn   types.Type
 	Inner *Val
 	Tuple []Val
+	Global *ssa.Global // provenance: the value was loaded whole from this global
 }
 
 type Leaf struct {
@@ -216,4 +217,23 @@ func derefType(t types.Type) types.Type {
 		return p.Elem()
 	}
 	return nil
+}
+
+// sigKey is the key of type-level (function type) contracts: parameter and result types only.
+func sigKey(sig *types.Signature) string {
+	q := func(p *types.Package) string { return p.Name() }
+	var ps, rs []string
+	for i := 0; i < sig.Params().Len(); i++ {
+		ps = append(ps, types.TypeString(sig.Params().At(i).Type(), q))
+	}
+	for i := 0; i < sig.Results().Len(); i++ {
+		rs = append(rs, types.TypeString(sig.Results().At(i).Type(), q))
+	}
+	k := "func(" + strings.Join(ps, ", ") + ")"
+	if len(rs) == 1 {
+		k += " " + rs[0]
+	} else if len(rs) > 1 {
+		k += " (" + strings.Join(rs, ", ") + ")"
+	}
+	return "functype::" + k
 }
